@@ -1157,6 +1157,11 @@ impl SolarDay {
       m = m.next(-1);
       days += m.get_day_count() as isize;
     }
+    // 农历月也可能早于公历同序月一个月以上（如公元9-23年），此时向后找
+    while days >= m.get_day_count() as isize {
+      days -= m.get_day_count() as isize;
+      m = m.next(1);
+    }
     LunarDay::from_ymd(m.get_year(), m.get_month_with_leap(), (days + 1) as usize)
   }
 
